@@ -38,7 +38,7 @@ fn cell(name: &str, auth: Auth, mismatch: bool) -> EvCell {
         alphabet,
         rounds: 3,
         tick_choice: true,
-        env: EvEnv { hold_updates: 0, hold_events: false, reorder: false, drop_unreliable: false, hold_client_events: true, hold_mutations: false, hold_acks: false, update_latency: 0 },
+        env: EvEnv { hold_updates: 0, hold_events: false, reorder: false, drop_unreliable: false, hold_client_events: true, hold_mutations: false, hold_acks: false, update_latency: 0, update_batch: 0 },
         oracles: EvOracles { c07: true, convergence: !mismatch, ..Default::default() },
         closure_rounds: 5,
     }
